@@ -231,7 +231,8 @@ pub fn diverging_branch_programs() -> Vec<String> {
     }
     values.extend([
         "(1, \"s\")", "(1, 2, 3)", "struct{a := 1}", "struct{a := (1, 2)}", "mut 5", "mut (1, 2)", "[1, 2]~", "() -> int { return 1 }", "(x: int) -> int { return x }",
-        "[(1, 2)]", "((1, 2), 3)", "[mut 1]",
+        "[(1, 2)]", "((1, 2), 3)", "[mut 1]", "(x: int, y: int) -> int { return x }", "(x: int) -> bool { return true }", "[true]~", "[\"a\"]~", "mut [1]", "struct{a := mut 1}",
+        "(() -> int { return 1 }, 2)", "[(x: int) -> int { return x }]",
     ]);
     let uses = [
         "a.0", "a.1", "a.a", "a[0]", "a[0:1]", "*a", "a()", "a(1)", "-a", "!a", "a~", "a~ $+", "a $]", "a $+", "a + 1", "1 + a", "a + a", "a == a", "a && true", "a & 1", "a << 1",
@@ -243,6 +244,7 @@ pub fn diverging_branch_programs() -> Vec<String> {
         "a ? (x: int) -> bool { return true } $]", "a~ $]", "a $&&", "a $||", "a $&", "a $|", "a $*", "a[0][0]", "a.0()", "a()()", "a[0]()", "*a()", "*a.0", "**a", "a = 1",
         "a += 1", "a /= 0", "a[0:1][0]", "a.0.1", "a $ 0 (x: int, y: int) -> int { return x } + 1", "a ? int ? string $]", "(a, a).0.0", "[a][0].0", "struct{f := a}.f.0",
         "a == 1", "1 == a", "a != a", "a < 1", "a || true", "a | 1", "a ^ 1", "a >> 1", "a % 2", "a / 2", "a - 1", "a * 2", "2 ** a",
+        "[1]~ $ 0 a", "[1]~ ? a", "[1]~ ? a $]", "[1]~ @ a $]", "([1]~ \\ a).1", "[1]~ $ 0 a + 1", "a ? int", "[a]~ $+", "(a, 1) == (a, 1)", "a.0 = 1", "a[0] += 1", "*a = 1", "*a.0 += 1",
         "return a", "return a.0", "x := a; x.0", "(p, q) := (a, a); p.0", "if true { a.0 }", "match 1 { 1 => a.0, => 2, }", "for x in [1]~ { a.0 }",
     ];
     // expression uses are also bound to a name and used again (binding asks for the static type of the expression)
